@@ -5,8 +5,12 @@ import os
 VERIF = os.path.dirname(os.path.dirname(os.path.abspath(__file__)))
 
 BASE_NOTE = ('Trusted: Lean 4.33 kernel (axioms propext, Classical.choice, Quot.sound only; audited per run), the compiled '
-             'model driver, the Python correspondence harness. The theorems are about the hand-written Lean model; the tie to '
-             '/repo is the differential run on every check (counts in the evidence file).')
+             'model driver, the Python correspondence harness, and - for the Cxx_src_* theorems - the Python-to-Lean translator '
+             '(harness/py2lean*.py, primitive table Gen/PyPrelude.lean; construct table in notes/Tie.md). The theorems are about the '
+             'Lean model; the tie to /repo is checked on every run in two ways: the differential run of the compiled model against '
+             'the implementation (counts in the evidence file) and, where a property has Cxx_src_* theorems, definitions regenerated '
+             "from /repo's Python source on every check and proved equal to the model definitions for all inputs (listed under "
+             'coverage.regenerated_from_source in the evidence file).')
 
 CHECKS = {
     'C19': dict(
